@@ -716,6 +716,15 @@ class SeqTaint:
                         o = self.src_set(n.args[0], f) or self.seq(n.args[0], f)
                         if o:
                             self.sinks.append((m, q, f, n, "positions assigned in hash order (enumerate)", o))
+                    elif cn in ("max", "min") and len(n.args) == 1:
+                        # max / min return the FIRST of several equal elements: with a key that is not total, ties expose the input order
+                        key = [k.value for k in n.keywords if k.arg == "key"]
+                        items_input = isinstance(n.args[0], ast.Call) and isinstance(n.args[0].func, ast.Attribute) and n.args[0].func.attr == "items"
+                        if key and not key_is_total(key[0], items_input):
+                            o = self.src_set(n.args[0], f) or self.seq(n.args[0], f)
+                            if o:
+                                self.sinks.append((m, q, f, n, "first of equally ranked elements taken from a hash-ordered collection (%s with a "
+                                                               "key that leaves ties)" % cn, o))
                 elif isinstance(n, ast.Subscript) and isinstance(n.ctx, ast.Load) and not isinstance(n.slice, ast.Slice):
                     if isinstance(n.slice, ast.Constant) and isinstance(n.slice.value, int) or isinstance(n.slice, ast.UnaryOp):
                         o = self.seq(n.value, f)
